@@ -7,6 +7,7 @@ from fractions import Fraction as Fr
 import numpy as np
 
 import common as C
+import layouts as L
 import fuzzylite as fl
 
 PID = "C05"
@@ -60,10 +61,20 @@ def oracle(case):
         return False, f"{case.get('hedge')}({case.get('x')}): evaluating the hedge (scalar or array) raised {type(ex).__name__}: {ex}"
 
 
+def oracle_layouts(case):
+    """the hedge on the same degrees held in arrays of every layout / size / container (fv/layouts.py)"""
+    name = case["hedge"]
+    h = hedges()[name]
+    return L.check_elementwise(lambda a: h.hedge(a), case["xs"], f"hedge {name}", scalar=lambda x: impl(name, x),
+                               long=bool(case.get("long")))
+
+
 def oracle_(case):
+    if case["hedge"] not in hedges():
+        return False, f"hedge {case['hedge']} is not registered"
+    if "xs" in case:
+        return oracle_layouts(case)
     name, x = case["hedge"], float(case["x"])
-    if name not in hedges():
-        return False, f"hedge {name} is not registered"
     v = impl(name, x)
     if name in DOC and 0 <= x <= 1:
         d = DOC[name](x)
@@ -153,6 +164,12 @@ def correspond(ctx):
             mism.append({"case": {"hedge": name, "x": x}, "violation": True, "detail": detail, "what": detail})
             if len(mism) > 20:
                 break
+    for case in layout_cases(ctx):
+        ok, detail = oracle(case)
+        st.count("layouts")
+        if not ok:
+            mism.append({"case": case, "violation": True, "detail": detail, "what": detail})
+            break
     # monotonicity on the implementation over the grid
     g = np.linspace(0, 1, 4097)
     for name, h in hedges().items():
@@ -167,8 +184,23 @@ def correspond(ctx):
     return mism
 
 
+def layout_cases(ctx):
+    """degrees on both sides of the branch point, the end points, NaN: in every layout; one long array per hedge"""
+    rng = ctx.rng
+    for name in sorted(hedges()):
+        yield {"hedge": name, "xs": [0.0, 0.25, 0.5, 0.75, 1.0, 0.125, 0.625, 0.875], "long": True}
+        yield {"hedge": name, "xs": [math.nan, 0.25, 1.0, 0.0, 0.5, math.nan]}
+        for _ in range(ctx.scale(3, 40)):
+            yield {"hedge": name, "xs": [rng.random() for _ in range(rng.choice([6, 8, 12]))]}
+
+
 def search(ctx):
     for name in sorted(hedges()):
+        for case in layout_cases(ctx):
+            if case["hedge"] == name:
+                ok, d = oracle(case)
+                if not ok:
+                    return [(case, d)]
         for x, _ in points(ctx):
             ok, d = oracle({"hedge": name, "x": x})
             if not ok:
